@@ -53,6 +53,9 @@ type vpWorld struct {
 	ctxSeen                                                      []context.Context
 	openMaySucceed                                               bool
 	openAlways                                                   bool // OpenFile never fails
+	wedge                                                        chan struct{} // when non-nil, CreateFile waits for it to be closed
+	wedgeIgnoresCtx                                              bool          // ... without honouring its context
+	createCalls                                                  int
 }
 
 var vpW *vpWorld
@@ -119,6 +122,19 @@ func vpSrcPointer(i int) []byte { return []byte{'S', byte(i)} }
 
 func (s *vpStore) CreateFile(ctx context.Context) (io.WriteCloser, []byte, error) {
 	s.w.ctxSeen = append(s.w.ctxSeen, ctx)
+	s.w.createCalls++
+	if s.w.wedge != nil {
+		if s.w.wedgeIgnoresCtx {
+			<-s.w.wedge
+		} else {
+			select {
+			case <-s.w.wedge:
+			case <-ctx.Done():
+				s.w.log(evCreateFail, -1)
+				return nil, nil, ctx.Err()
+			}
+		}
+	}
 	if s.w.failCreate && nondetBool() {
 		s.w.log(evCreateFail, -1)
 		return nil, nil, vpInjected()
